@@ -247,6 +247,10 @@ def update_connectivity(
     # By constructing the array using new_fill_value where needed,
     # setting the dtype explicitly, and adding the _FillValue attribute,
     # xarray will cooperate.
+    # A kept row can refer to an element that was dropped, such as the
+    # neighbour of a face on the new boundary. Those entries become missing.
+    column_values = numpy.ma.filled(column_values, fill_value)
+
     include_row = ~numpy.ma.getmask(row_indexes)
     raw_values = numpy.array([
         [
